@@ -5,7 +5,8 @@ class, line/column of syntax errors).  Hunter: the real API must raise only
 lark.exceptions.LarkError subclasses, syntax errors carry line and column, every
 block type is accepted at the root, time grows roughly linearly."""
 import time
-from checklib import codec
+from checklib import codec, build
+from checklib.guarded import Guarded
 from gens import docs, sweep, harness, mutate
 
 MANIFEST = dict(
@@ -28,6 +29,23 @@ RULE = ("malformed stream: one to three token-level mutations (delete/duplicate/
 def lark_family(ex):
     import lark
     return isinstance(ex, lark.exceptions.LarkError)
+
+
+_guard = None
+
+
+def deadline(text):
+    """generous bound for "promptly": 20 s plus 1 s per 2000 characters (the pinned tree needs about 1 s per 25000)"""
+    return 20.0 + len(text) / 2000.0
+
+
+def classify_guarded(text):
+    """real API outcome in a child process under a deadline:
+    ('ok',) | ('lark', class, line, col) | ('other', class) | ('timeout', s) | ('died',)"""
+    global _guard
+    if _guard is None:
+        _guard = Guarded(build.REPO)
+    return _guard.classify(text, deadline(text))
 
 
 def classify(text):
@@ -70,11 +88,24 @@ def run(ctx):
     inputs += ["", " ", "\n", "END", "MAP", "GRID END", "foo bar", "NAME 'x'", "(", "\x00", "é", "MAP NAME é END", "﻿MAP END"]
     kinds = {}
     # ---- hunter on the real API
+    stalled = set()
     for t in inputs:
-        r = classify(t)
+        r, _secs = classify_guarded(t)
         kinds[r[0] if r[0] != "lark" else r[1]] = kinds.get(r[0] if r[0] != "lark" else r[1], 0) + 1
         ctx.note_case(t, nontrivial=len(t) > 10)
-        if r[0] == "other":
+        if r[0] in ("timeout", "died"):
+            stalled.add(t)
+            small = t
+            if r[0] == "timeout" and len(stalled) <= 3:
+                # shrink towards a short input that still needs more than 5 s (each probe is bounded)
+                from checklib.shrink import shrink_list
+                g2 = Guarded(build.REPO)
+                try:
+                    small = "".join(shrink_list(mutate.tokens(t), lambda s: g2.classify("".join(s), 5.0)[0][0] == "timeout", max_rounds=40))
+                finally:
+                    g2.close()
+            ctx.violation("not-prompt:" + r[0], "loads did not answer within %.0f s on a %d-character input (%s)" % (deadline(t), len(t), r[0]), {"text": small, "original": t[:2000]})
+        elif r[0] == "other":
             from checklib.shrink import shrink_list
             toks = mutate.tokens(t)
             small = shrink_list(toks, lambda s: classify("".join(s)) == r)
@@ -84,7 +115,7 @@ def run(ctx):
     ctx.coverage["outcome_histogram"] = kinds
     # ---- correspondence on the same stream
     if ctx.model_ok:
-        sel = [t for t in inputs if len(t) < 4000]
+        sel = [t for t in inputs if len(t) < 4000 and t not in stalled]
         mouts = harness.model_loads([(t, False, False) for t in sel])
         n_bad = 0
         for t, m in zip(sel, mouts):
@@ -103,7 +134,7 @@ def run(ctx):
     import mappyfile
     for ty in docs.object_types() + ["metadata", "validation", "connectionoptions", "symbolset"]:
         t = ty.upper() + "\nEND"
-        r = classify(t)
+        r, _secs = classify_guarded(t)
         ctx.note_case("root:" + ty)
         if r[0] != "ok":
             ctx.violation("root-block-rejected:" + ty, "%s END is not accepted at the root: %r" % (ty.upper(), r), {"text": t})
@@ -115,9 +146,11 @@ def run(ctx):
             times = []
             for n in sizes:
                 t = mutate.repetitive(rng, n, unit, valid)
-                t0 = time.perf_counter()
-                r = classify(t)
-                times.append((len(t), time.perf_counter() - t0))
+                r, secs = classify_guarded(t)
+                times.append((len(t), secs))
+                if r[0] in ("timeout", "died"):
+                    ctx.violation("not-prompt:" + r[0], "loads did not answer within %.0f s on a %d-character repetitive input" % (deadline(t), len(t)), {"text": t[:2000], "unit": unit, "valid": valid})
+                    break
                 if valid and r[0] != "ok":
                     ctx.violation("long-valid-document-rejected", "a long repetitive valid document was rejected: %r" % (r,), {"text": t[:300]})
             ctx.coverage.setdefault("timing", []).append({"unit": unit, "valid": valid, "times": [(n, round(s, 4)) for n, s in times]})
@@ -125,11 +158,13 @@ def run(ctx):
                 if s2 > 0.5 and s2 / max(s1, 1e-4) > 4.0 * (n2 / n1):
                     ctx.violation("super-linear-time", "parse time grows faster than 4x linear between %d and %d characters (%.3fs -> %.3fs)" % (n1, n2, s1, s2),
                                   {"unit": unit, "valid": valid, "times": times})
+    if _guard is not None:
+        _guard.close()
     ctx.sample({"mutated": inputs[0][:200]})
     ctx.sample({"soup": inputs[n_mut][:200]})
 
 
 def replay(ctx, body):
-    r = classify(body["replay"]["text"])
-    print("replay:", r)
-    return 1 if r[0] == "other" else 0
+    r, secs = classify_guarded(body["replay"]["text"])
+    print("replay:", r, "%.2fs" % secs)
+    return 1 if r[0] in ("other", "timeout", "died") else 0
